@@ -275,7 +275,11 @@ Definition op_okb (s : st) (o : op) : bool :=
   | OClearRows p a b _ ws _ =>
       has_page s p && in_rows c a b && ws_okb c ws && no_dirty_in (dirty (get_page s p)) a b
   | OScrollUp p a b _ ws _ => has_page s p && in_rows c a b && (b * fh c <=? PH c) && ws_okb c ws
-  | OScrollDown p a b _ ws _ => has_page s p && in_rows c a b && (b * fh c <=? PH c) && ws_okb c ws
+  | OScrollDown p a b _ ws _ =>
+      (* from = to + 1 (nothing moves, row `from` is blanked) is what textscreen.line_feed asks for when the
+         cursor sits below the scroll area (LOCATE 25,1 with KEY OFF, then Ctrl+J) *)
+      has_page s p && (1 <=? a) && (a <=? b + 1) && (a <=? TH c) && (b <=? TH c) && (b * fh c <=? PH c)
+      && ws_okb c ws
   | OCopyFrom dst src => has_page s dst && has_page s src
   | OSetPage v => has_page s v
   | OSetMode c' n => cfg_okb c' && Nat.ltb 0 n
